@@ -72,6 +72,9 @@ impl World {
 pub struct MuxState {
     pub fail: bool,
     pub closed: bool,
+    /// while set, `poll_close` stays pending (the connection is closing but not yet closed)
+    pub hold_close: bool,
+    pub close_waker: Option<Waker>,
     pub waker: Option<Waker>,
     pub label: String,
 }
@@ -110,8 +113,12 @@ impl StreamMuxer for ScriptedMuxer {
         self.st.lock().unwrap().waker = Some(cx.waker().clone());
         Poll::Pending
     }
-    fn poll_close(self: Pin<&mut Self>, _: &mut Context<'_>) -> Poll<Result<(), io::Error>> {
+    fn poll_close(self: Pin<&mut Self>, cx: &mut Context<'_>) -> Poll<Result<(), io::Error>> {
         let mut st = self.st.lock().unwrap();
+        if st.hold_close {
+            st.close_waker = Some(cx.waker().clone());
+            return Poll::Pending;
+        }
         if !st.closed {
             st.closed = true;
             let label = st.label.clone();
